@@ -146,8 +146,12 @@ func (p *Program) mayBeNil(v ssa.Value, b *ssa.BasicBlock) bool {
 	case *ssa.Call:
 		// a status code converted to error: MakeInterface handled above
 	}
+	cv := canonLoad(v)
 	for _, f := range factsAt(b) {
-		if f.Op == token.NEQ && ((f.X == v && isNilConst(f.Y)) || (f.Y == v && isNilConst(f.X))) {
+		if f.Op != token.NEQ {
+			continue
+		}
+		if (isNilConst(f.Y) && (f.X == v || canonLoad(f.X) == cv)) || (isNilConst(f.X) && (f.Y == v || canonLoad(f.Y) == cv)) {
 			return false
 		}
 	}
@@ -613,4 +617,120 @@ func (p *Program) fieldAddrEscapes(f *types.Var) (bool, string) {
 		}
 	}
 	return false, ""
+}
+
+// ---------------------------------------------------------------------------
+// type-switch facts, call-result facts, path enumeration
+
+// assertOK: the fact says "X.(T) succeeded"; returns the asserted type.
+func assertOK(c Cmp) (types.Type, *ssa.TypeAssert, bool) {
+	var ta *ssa.TypeAssert
+	ok := cmpIsBool(c, true, func(v ssa.Value) bool {
+		e, isE := v.(*ssa.Extract)
+		if !isE || e.Index != 1 {
+			return false
+		}
+		t, isT := e.Tuple.(*ssa.TypeAssert)
+		if isT {
+			ta = t
+		}
+		return isT
+	})
+	if !ok || ta == nil {
+		return nil, nil, false
+	}
+	return ta.AssertedType, ta, true
+}
+
+// factAssertPtr: some dominating fact says a value was asserted to *pkg.name.
+func factAssertPtr(fs []Cmp, pkgPath, name string) bool {
+	return anyFact(fs, func(f Cmp) bool {
+		t, _, ok := assertOK(f)
+		return ok && isPtrToNamed(t, pkgPath, name)
+	})
+}
+
+// callResultNilFact: the fact says (result of a call to one of fns) ==/!= nil.
+func callResultNilFact(c Cmp, wantNil bool, isFn func(*ssa.Function) bool) bool {
+	op := token.EQL
+	if !wantNil {
+		op = token.NEQ
+	}
+	if c.Op != op {
+		return false
+	}
+	v := c.X
+	if isNilConst(c.X) {
+		v = c.Y
+	} else if !isNilConst(c.Y) {
+		return false
+	}
+	if e, ok := v.(*ssa.Extract); ok {
+		v = e.Tuple
+	}
+	call, ok := v.(*ssa.Call)
+	if !ok {
+		return false
+	}
+	f := call.Common().StaticCallee()
+	return f != nil && isFn(f)
+}
+
+// edgeFact returns the comparison established by taking the edge from->to.
+func edgeFact(from, to *ssa.BasicBlock) (Cmp, bool) {
+	iff := ifOf(from)
+	if iff == nil || len(from.Succs) != 2 || from.Succs[0] == from.Succs[1] {
+		return Cmp{}, false
+	}
+	return cmpOf(iff.Cond, from.Succs[0] == to)
+}
+
+// allPathsSatisfy enumerates the acyclic paths from `from` to `to` that do
+// not enter a block for which avoid is true, and requires pred(edge facts of
+// the path + facts dominating `from`) on each.  It returns the number of
+// paths and whether all satisfied pred; more than 4096 paths count as failure.
+func allPathsSatisfy(from, to *ssa.BasicBlock, avoid func(*ssa.BasicBlock) bool, pred func([]Cmp) bool) (n int, ok bool) {
+	ok = true
+	base := factsAt(from)
+	on := map[*ssa.BasicBlock]bool{}
+	var walk func(b *ssa.BasicBlock, facts []Cmp)
+	walk = func(b *ssa.BasicBlock, facts []Cmp) {
+		if n > 4096 {
+			ok = false
+			return
+		}
+		if b == to {
+			n++
+			if !pred(facts) {
+				ok = false
+			}
+			return
+		}
+		on[b] = true
+		for _, s := range b.Succs {
+			if on[s] || (avoid != nil && avoid(s)) {
+				continue
+			}
+			nf := facts
+			if f, has := edgeFact(b, s); has {
+				nf = append(append([]Cmp{}, facts...), f)
+			}
+			walk(s, nf)
+		}
+		on[b] = false
+	}
+	walk(from, base)
+	return
+}
+
+// globalLoad: v is a load of the package-level variable g.
+func isGlobalLoad(v ssa.Value, g *ssa.Global) bool {
+	u, ok := v.(*ssa.UnOp)
+	return ok && g != nil && u.Op == token.MUL && u.X == ssa.Value(g)
+}
+
+// staticCallTo: in is a direct call of fn.
+func staticCallTo(in ssa.Instruction, fn *ssa.Function) bool {
+	c, ok := in.(*ssa.Call)
+	return ok && fn != nil && c.Common().StaticCallee() == fn
 }
